@@ -55,6 +55,21 @@ def cases(tier, rng):
                    "unbind 1 ep#1", "binds 1", f"probe ep#1 {peer}"]
             out.append(Case(f"stalled-peer-{tr}-{off}#{n}", "net", ops, ["stalled-peer"]))
             n += 1
+    # accept() itself FAILS for a while (the process is out of file descriptors while a client is queued on the
+    # listener): a transient condition of the environment — the endpoint stays bound AND listening, the queued client is
+    # accepted once descriptors are available again, unbind / re-bind work as ever
+    for tr in [x for x in trs if x in ("tcp4", "ipc")]:
+        for t in ("PULL", "REP"):
+            peer = netgen.PEER[t]
+            ops = [f"sock 1 {t}", f"bind 1 {tr}", "rawconn 1 ep#0", f"rawhs 1 {peer}", "rawwait 1 hs",
+                   "fdhoard", "fdrelease 1", "rawconn 2 ep#0", "pause 100", "fdrelease all",
+                   f"rawhs 2 {peer}", "rawwait 2 hs", "binds 1", f"probe ep#0 {peer}"]
+            if t == "PULL":
+                ops += ["rawmsg 1 6f6c64", "recv 1", "rawmsg 2 6e6577", "recv 1"]
+            ops += ["unbind 1 ep#0", "binds 1", f"probe ep#0 {peer}", "unbind 1 ep#0", "bind 1 dup:ep#0", "binds 1",
+                    f"probe ep#0 {peer}", "unbind 1 ep#0", f"probe ep#0 {peer}"]
+            out.append(Case(f"accept-error-{t}-{tr}#{n}", "net", ops, ["accept-error"]))
+            n += 1
     for _ in range(120 if tier == "quick" else 1500):
         t = rng.choice(["PULL", "PULL", "DEALER", "REP", "XPUB", "PUSH"])
         peer = netgen.PEER[t]
